@@ -441,6 +441,77 @@ def rule_r6(ctx: Ctx, g: CallGraph) -> None:
     ctx.analysed["C16.R6.sites"] = n_sites
 
 
+def rule_r7(ctx: Ctx) -> None:
+    """the layout queries evaluated for *huge* parameters: a type model that is symbolic answers them by a handful of arithmetic
+    steps whatever the capacity / extent; one that enumerates (a range, a set, the copies of an element) builds a collection
+    with as many elements as the parameter says, which the evaluator refuses (`TooLarge`)"""
+    from ..absint import APath, Raised, construct, ctor_hook, module_call_hook, path_hook
+    from ..fold import Folder, TooLarge, Unfoldable
+    from .c01 import _quiet_hook
+    from .c11 import _version
+
+    ctx.rule("C16.R7", "types with capacities / extents of 2**40 and more are constructed and asked min / max / fixed_length / byte alignment / extent / equality / hash by evaluation of the source: no step builds or walks a collection whose size follows the parameter", min_instances=3)
+    SER = "_serializable."
+    prim = ctx.cls(SER + "_primitive.PrimitiveType")
+
+    def hook_for(c: Any) -> Any:
+        return path_hook(ctor_hook(ctx, module_call_hook(ctx, c.module, [], [], results={"check_name": None}, record=["check_name"], base_hook=_quiet_hook)))
+
+    def mk(label: str, short: str, *a: Any, **k: Any) -> Any:
+        c = ctx.cls(SER + short)
+        try:
+            return construct(ctx, c, *a, hook=hook_for(c), **k)
+        except TooLarge as ex:
+            return ("too-large", "constructing %s: %s" % (label, ex))
+        except Raised as r:
+            raise AnalysisError("%s cannot be constructed: %s" % (label, r.cls_name))
+        except Unfoldable as ex:
+            raise AnalysisError("%s cannot be constructed over the rule's arguments: %s" % (label, ex))
+
+    f0 = Folder({}, ctx.repo, prim.module, prim)
+    try:
+        TRU = f0.fold(ast.parse("PrimitiveType.CastMode.TRUNCATED", mode="eval").body)
+    except Unfoldable as ex:
+        raise AnalysisError("the cast modes cannot be evaluated: %s" % ex)
+    big = 2**40
+    u8 = mk("uint8", "_primitive.UnsignedIntegerType", 8, TRU)
+    u16 = mk("uint16", "_primitive.UnsignedIntegerType", 16, TRU)
+    subjects = []
+    fixed = mk("uint8[2**40]", "_array.FixedLengthArrayType", u8, big)
+    var = mk("uint16[<=2**40]", "_array.VariableLengthArrayType", u16, big)
+    subjects += [("uint8[2**40]", fixed), ("uint16[<=2**40]", var)]
+    if not any(isinstance(x, tuple) for x in (fixed, var)):
+        subjects.append(("uint8[2**40][<=2**20]", mk("array of arrays", "_array.VariableLengthArrayType", fixed, 2**20)))
+        fa, fb = mk("field", "_attribute.Field", fixed, "a"), mk("field", "_attribute.Field", var, "b")
+        st = mk("structure", "_composite.StructureType", name="ns.A", version=_version(1, 0), attributes=[fa, fb], deprecated=False, fixed_port_id=None, source_file_path=APath("/r/ns/A.1.0.dsdl"), has_parent_service=False, doc="")
+        subjects.append(("structure {uint8[2**40] a; uint16[<=2**40] b}", st))
+        small = mk("structure", "_composite.StructureType", name="ns.B", version=_version(1, 0), attributes=[mk("field", "_attribute.Field", u8, "x")], deprecated=False, fixed_port_id=None, source_file_path=APath("/r/ns/B.1.0.dsdl"), has_parent_service=False, doc="")
+        if not isinstance(small, tuple):
+            subjects.append(("delimited, extent 8 * 2**40", mk("delimited", "_composite.DelimitedType", small, 8 * big)))
+            subjects.append(("delimited, extent 8 * 2**40 (again)", mk("delimited", "_composite.DelimitedType", small, 8 * big)))
+    queries = ["x.bit_length_set.min", "x.bit_length_set.max", "x.bit_length_set.fixed_length", "x.bit_length_set.is_aligned_at_byte()", "x.bit_length_set.is_aligned_at(8)", "x.alignment_requirement", "x == x", "hash(x)", "x.bit_length_set == y.bit_length_set", "hash(x.bit_length_set)", "str(x)"]
+    n = 0
+    for i, (label, obj) in enumerate(subjects):
+        bad = []
+        if isinstance(obj, tuple):
+            bad.append(obj[1])
+        else:
+            other = subjects[i - 1][1] if i and not isinstance(subjects[i - 1][1], tuple) else obj
+            qs = list(queries) + (["x.extent"] if "delimited" in label or "structure" in label else [])
+            for q in qs:
+                try:
+                    Folder({"x": obj, "y": other}, ctx.repo, prim.module, None, hook_for(prim)).fold(ast.parse(q, mode="eval").body)
+                except TooLarge as ex:
+                    bad.append("%s: %s" % (q, ex))
+                except Raised:
+                    pass  # an answer
+                except Unfoldable as ex:
+                    raise AnalysisError("%s of %s cannot be evaluated: %s" % (q, label, ex))
+                n += 1
+        ctx.check(not bad, label, "constructed and queried (%d queries)" % (len(queries) + 1), "layout analysis is symbolic: its cost does not grow with capacities or extents", "pydsdl/_serializable", bad[:4])
+    ctx.count(n)
+
+
 def run(ctx: Ctx) -> None:
     g = CallGraph(ctx.repo)
     ctx.analysed["callgraph"] = g.stats()
@@ -452,5 +523,6 @@ def run(ctx: Ctx) -> None:
     ctx.attempt(rule_r4, ctx)
     ctx.attempt(rule_r5, ctx)
     ctx.attempt(rule_r6, ctx, g)
+    ctx.attempt(rule_r7, ctx)
     ctx.assume("kind inference is annotation-seeded; unresolved receivers fall back to by-name dispatch (over-approximation, sound for must-not-reach)")
     ctx.undecided("actual wall-clock and memory; the residue enumeration is exponential in the number of distinct residues but bounded by the divisor, which is what the property states")
